@@ -84,6 +84,11 @@ func genC16Plan(r *sim.Rng, tier string) RelayPlan {
 			pl.Pubs[i].AudioCodec = media.SoundAAC
 		}
 	}
+	// relay push to a slow target: the connect is still in progress while publishers leave and the name is published again
+	if r.Bool(0.2) {
+		pl.Conf.PushAddrs = []string{"10.8.8.1:1935"}
+		pl.PushHoldMs = []int{0, 300, 1500, 4000}[r.Intn(4)]
+	}
 	// a relay pull that never becomes the input (its origin refuses the connection; no retries): afterwards the stream
 	// is as removable as any other
 	if r.Bool(0.25) {
@@ -267,6 +272,15 @@ func CheckC16(k *sim.Kernel, rr *RelayRun, hls *HlsTracker) {
 		if p.Actor != nil && p.Actor.Ready && rr.sessionIdOf(p.Actor.Conn.RemoteAddr().String()) != "" {
 			accepted[p.Plan.Stream] = append(accepted[p.Plan.Stream], p)
 			nAccepted++
+		}
+	}
+	// 0. every relay-push connection is closed once the publishers are gone (whether it ever got to publish or not)
+	if !rr.Plan.Dispose {
+		for pi, c := range rr.PushCons {
+			if c.Push != nil && !c.Push.Closed {
+				k.Violate("C16.push-not-closed", "every publisher has left and the clean-up time has passed, but relay-push connection #%d to %s (publishing started: %v) is still open", pi, c.Push.Conn.RemoteAddr(), c.Push.Started)
+			}
+			k.Probe("c16_push_closed_checked")
 		}
 	}
 	// 1. the stream hook is told to stop exactly once per input
